@@ -226,6 +226,30 @@ class C06(Prop):
                 # quantifiers whose bodies are decided for some iterations and need the strings for others
                 from .c04 import quantified_partial
                 c = quantified_partial(rng, 2)
+            if rng.chance(1, 4):
+                # what needs the strings is an ELEMENT of the enumeration or the COUNT of the selection, the rest
+                # being decidable: an element may turn out undefined once the matches are known (`@a[2]` with one
+                # match) and a count may turn out to be 0 (`0 of` = none of)
+                v = rng.below(2)
+                if rng.chance(1, 2):
+                    pend = rng.choice([("offset", v, ("int", rng.choice([1, 2, 3]))), ("length", v, ("int", rng.choice([2, 3]))),
+                                       ("bin", "add", ("offset", v, ("int", 2)), ("int", 1))])
+                    dec = rng.choice([0, 1, 5])
+                    elems = rng.choice([[pend, ("int", dec)], [("int", dec + 1), pend, ("int", dec)], [pend, pend, ("int", dec)]])
+                    body = rng.choice([("bin", "eq", ("bound", 0), ("int", dec)),
+                                       ("bin", "eq", ("readint", "uint8", ("bound", 0)), ("int", rng.choice([97, 98, 122])))])
+                    c = ("forlist", rng.choice(["any", "any", "none", "expr"]), ("int", 1), elems, body)
+                    if c[1] != "expr":
+                        c = (c[0], c[1], None, c[3], c[4])
+                else:
+                    body = rng.choice([("and", [("bin", "eq", ("readint", "uint8", ("int", 0)), ("int", 77)), ("var", None)]),
+                                       ("varat", None, ("bin", "sub", ("filesize",), ("int", 100))),
+                                       ("and", [("bool", False), ("var", None)])])
+                    k, se = rng.choice([("expr", ("count", v)), ("expr", ("bin", "sub", ("count", v), ("int", 1))),
+                                        ("pct", ("bin", "mul", ("count", v), ("int", 50))), ("expr", ("offset", v, ("int", 1)))])
+                    c = ("for", k, se, [0, 1], body)
+                if rng.chance(1, 4):
+                    c = ("un", "not", c)
             rs = {"nns": 1, "rules": [{"id": 0, "ns": 0, "name": "r0", "global": False, "private": False,
                                        "ord_index": 0, "strings": strings, "cond": c}]}
             rs = json.loads(json.dumps(rs))
